@@ -46,6 +46,68 @@ class NameSeam:
 
     def remove(self):
         self.tc._RAND_PREFIX, self.tc.RAND_UUIDS = self.saved
+        if getattr(self, "_saved_uuid", None) is not None:
+            self.tc.uuid = self._saved_uuid
+            self._saved_uuid = None
+
+    # -- a real fork ----------------------------------------------------------
+    def seed_uuid4(self, seed):
+        """`uuid.uuid4` as seen by quimb.tensor.tensor_core becomes a seeded
+        sequence for the run, so that whatever an at-fork hook does with it is
+        replayable."""
+        import random
+        import uuid as _uuid
+
+        rng = random.Random(seed)
+        self._saved_uuid = self.tc.uuid
+
+        class _U:
+            def __getattr__(self_, name):
+                return getattr(_uuid, name)
+
+            @staticmethod
+            def uuid4():
+                return _uuid.UUID(int=rng.getrandbits(128), version=4)
+
+        self.tc.uuid = _U()
+
+
+def run_in_forked_child(fn):
+    """Run ``fn()`` in a real ``os.fork()`` child and return its pickled
+    result: what a multiprocessing worker does.  The child inherits the whole
+    interpreter state (name generator position included); only what it pickles
+    comes back."""
+    import os
+    import pickle
+
+    rd, wr = os.pipe()
+    pid = os.fork()
+    if pid == 0:
+        code = 0
+        try:
+            os.close(rd)
+            data = pickle.dumps(("ok", fn()))
+        except BaseException as e:  # noqa: BLE001
+            data = pickle.dumps(("err", repr(e)))
+            code = 1
+        try:
+            with os.fdopen(wr, "wb") as f:
+                f.write(data)
+        finally:
+            os._exit(code)
+    os.close(wr)
+    chunks = []
+    with os.fdopen(rd, "rb") as f:
+        while True:
+            b = f.read(1 << 16)
+            if not b:
+                break
+            chunks.append(b)
+    os.waitpid(pid, 0)
+    kind, val = pickle.loads(b"".join(chunks))
+    if kind == "err":
+        raise RuntimeError("forked child failed: " + val)
+    return val
 
 
 class GCSeam:
